@@ -298,6 +298,12 @@ def generate(rng, k, tier="quick"):
             ops.append({"op": "CHECK_NEAR", "a": b, "b": c})
         elif r < 0.76:
             ops.append({"op": "CHECK_FAR", "kind": rng.choice(["Point", "Vector"]), "c": X.ser(tuple(F(rng.randint(-64, 64), 8) for _ in range(3))), "coord": rng.randrange(3), "sign": rng.choice([-1, 1]), "mult": rng.choice(["9/2", "5", "5", "8", "100"]), "others": [rng.choice([-1, 0, 0, 1]) for _ in range(3)]})
+        elif r < 0.775:
+            # constructing objects - also large ones - is not a setter: the configuration
+            # must be what the model says afterwards (J1) and Points 5 eps apart unequal (J3)
+            ops.append({"op": "BUILD_BIG", "ctor": rng.choice(["Parallelepiped", "Parallelepiped", "Parallelogram", "Cylinder", "Sphere", "Segment"]), "log2": rng.choice([6, 10, 13, 16, 20, 23]), "o": X.ser(tuple(F(rng.randint(-16, 16), 8) for _ in range(3)))})
+            ops.append({"op": "CHECK_GETTERS"})
+            ops.append({"op": "CHECK_FAR", "kind": rng.choice(["Point", "Vector"]), "c": X.ser(tuple(F(rng.randint(-24, 24), 8) for _ in range(3))), "coord": rng.randrange(3), "sign": rng.choice([-1, 1]), "mult": "5", "others": [0, 0, 0]})
         elif r < 0.80:
             ops.append({"op": "CHECK_DEGENERATE", "ctor": rng.choice(["Segment_PP", "Segment_PV", "HalfLine_PP", "HalfLine_PV", "Line_PP"]), "c": X.ser(tuple(F(rng.randint(-32, 32), 8) for _ in range(3))), "coord": rng.randrange(3), "sign": rng.choice([-1, 1])})
         elif r < 0.84:
@@ -676,6 +682,22 @@ def execute(history, opts=None):
                 _check_near(ctx, step, M, a, b)
             elif kind == "CHECK_FAR":
                 _check_far(ctx, step, G, M, op)
+            elif kind == "BUILD_BIG":
+                L = float(2 ** op["log2"])
+                o = G.Point(*[float(F(x)) for x in op["o"]])
+                c = op["ctor"]
+                if c == "Parallelepiped":
+                    r = call(G.Parallelepiped, o, G.Vector(L, 0, 0), G.Vector(0, L, 0), G.Vector(0, 0, L))
+                elif c == "Parallelogram":
+                    r = call(G.Parallelogram, o, G.Vector(L, 0, 0), G.Vector(0, L, 0))
+                elif c == "Cylinder":
+                    r = call(G.Cylinder, o, L, G.Vector(0, 0, L), 6)
+                elif c == "Sphere":
+                    r = call(G.Sphere, o, L, 6, 2)
+                else:
+                    r = call(G.Segment, o, G.Vector(L, L, 0))
+                ctx.count("big_builds")
+                ctx.event(step, kind, disc(r))
             elif kind == "CHECK_DEGENERATE":
                 _check_degenerate(ctx, step, G, M, op)
             elif kind == "BATTERY":
